@@ -666,8 +666,12 @@ package chain
 // AddValidatedV2Blocks: the caller vouches for validity (the syncer validates every block against
 // the checkpoint-derived state, C11); blocks must be v2, counts must match, the parent must be
 // known; the reorg gate is the same as for AddBlocks.
-//@ func (*Manager).AddValidatedV2Blocks props C01,C03
+//@ func (*Manager).AddValidatedV2Blocks props C01,C03,C19
 //@   requires m != nil && m.store != nil
+// a reorganisation that fails, for whatever reason (an ancestor delivered earlier through AddBlocks
+// may be invalid, a body below the prune boundary may be gone), is followed by one back to the old tip
+//@   ensures [rollback] result != nil && called("reorgTo") ==> callarg("reorgTo", 1) == old(m.tipState.Index)
+//@   ensures [no-notify-on-error] result != nil ==> !mayHaveCalled("funcvalue")
 //@   requires forall i int :: { blocks[i] } 0 <= i && i < len(blocks) ==> PreValidatedBlock(blocks[i])
 //@   loop "range blocks"
 //@     invariant m == old(m) && m.store == old(m.store) && -1 <= rangeindex && rangeindex < len(blocks) && len(states) == len(blocks)
